@@ -55,6 +55,30 @@ def run(ctx):
         vlib.report(ctx, "%s in %s on input %s (%s)" % (p["kind"], p["entry"], p["bytes"][:200], json.dumps(p.get("case"))), p,
                     {"kind": p["kind"], "entry": p["entry"]})
     ctx.coverage.update(sweep_targets=sw["targets"], sweep_seed_encodings=sw["seeds"], sweep_inputs=sw["inputs"], sweep_by_entry=sw["by_entry"])
+    # third family: the runtime host protocol connection facing a misbehaving runtime (HostProto.tla)
+    hd = vlib.copy_specs(ctx, "hostproto")
+    hr = vlib.run_tlc(ctx, hd, "MCHostProto", "design_hostproto.cfg", timeout=1200)
+    vlib.tlc_must_pass(ctx, hr, "design run HostProto (NeverHangs, OneAnswer, CloseReturns under fairness)")
+    hn = vlib.run_tlc(ctx, hd, "MCHostProto", "design_hostproto_nodelete.cfg", timeout=600)
+    if hn.violated != "NeverHangs":
+        raise vlib.Infra("HostProto.tla is vacuous: without the deletion on lookup the hang is not found (violated=%s error=%s)" % (hn.violated, hn.error))
+    hp_out = ctx.path("hostproto.json")
+    hvh = vlib.popen_vh(["proto-replay", "-in", "-", "-out", hp_out, "-every", "8" if q else "1", "-random", "300" if q else "5000", "-seed", str(ctx.seed)])
+    hg = vlib.run_tlc(ctx, hd, "MCHostProto", "gen_hostproto_quick.cfg", timeout=1200, sink=hvh.stdin)
+    hvh.stdin.close()
+    if hvh.wait() != 0:
+        raise vlib.Infra("proto-replay failed")
+    vlib.tlc_must_pass(ctx, hg, "script generation HostProto")
+    hs = json.load(open(hp_out))
+    if hs["scripts"] != hg.emitted or not hg.emitted:
+        raise vlib.Infra("HostProto: emitted %d scripts, harness saw %d" % (hg.emitted, hs["scripts"]))
+    ctx.log("host protocol: design %d states; %d scripts emitted, %d replayed on the real connection, call outcomes %s, problems %s" % (
+        hr.distinct, hs["scripts"], hs["replayed"], hs["call_outcomes"], hs["problem_kinds"]))
+    for p in (hs["problems"] or [])[:5]:
+        vlib.report(ctx, "runtime host protocol connection: %s after the script %s" % (p["problem"], json.dumps(p["script"])[:600]), p,
+                    {"kind": p["problem"].split(":")[0], "entry": "protocol.Connection"})
+    ctx.coverage.update(hostproto_design_states=hr.distinct, hostproto_scripts=hs["scripts"], hostproto_replayed=hs["replayed"],
+                        hostproto_model_counterexample_without_delete=True)
     # live multiplexers: junk / malformed / bit-flipped transaction bytes through DeliverTx (every call under recover())
     lines, sums = cc.run_scenarios(ctx, [ctx.seed * 1000 + 900 + i for i in range(3 if q else 24)], 120 if q else 300, halt_ok=True)
     t = cc.totals(sums)
